@@ -175,6 +175,34 @@ def extract_beyond(tree):
     return [pyexpr(e, env_names({"offset": "d"})) for e in _vector3(cands[0].value, "Beyond scalar offset")]
 
 
+def extract_beyond_inherits(tree):
+    """Does `Beyond` look at `isA(fromPt, OrientedPoint)` *before* `fromPt` is coerced to a plain vector?
+    (after the coercion the test can never succeed, so the orientation of an oriented `from` is dropped)"""
+    fn = get_def(tree, "Beyond", VENEER)
+    body = body_nodoc(fn)
+    coerce_at = test_at = None
+    for i, st in enumerate(body):
+        if (isinstance(st, ast.Assign) and len(st.targets) == 1 and is_name(st.targets[0], "fromPt")
+                and isinstance(st.value, ast.Call) and is_name(st.value.func, "toVector")
+                and st.value.args and is_name(st.value.args[0], "fromPt")):
+            expect(coerce_at is None, "Beyond: fromPt coerced twice")
+            coerce_at = i
+        if isinstance(st, ast.If) and ast.unparse(st.test) == "isA(fromPt, OrientedPoint)":
+            expect(test_at is None, "Beyond: two OrientedPoint tests")
+            expect([ast.unparse(x) for x in st.body] == ["orientation = fromPt.orientation"]
+                   and [ast.unparse(x) for x in st.orelse] == ["orientation = Orientation.fromEuler(0, 0, 0)"],
+                   "Beyond: orientation branches changed")
+            test_at = i
+    expect(coerce_at is not None and test_at is not None, "Beyond: coercion / OrientedPoint test not found")
+    src = ast.unparse(fn)
+    expect("direction = pos - fromPt" in src and "sphericalCoords = direction.sphericalCoordinates()" in src
+           and "offsetRotation = Orientation.fromEuler(sphericalCoords[1], sphericalCoords[2], 0)" in src
+           and "new_direction = pos + offset.applyRotation(offsetRotation)" in src,
+           "Beyond: line-of-sight frame computation changed")
+    expect("{'position': new_direction, 'parentOrientation': orientation}" in src, "Beyond: specified values changed")
+    return test_at < coerce_at
+
+
 def extract_apparently(tree):
     fn = get_def(tree, "ApparentlyFacing", VENEER)
     helper = None
@@ -261,6 +289,7 @@ def extract():
     d["on"] = extract_on(tree)
     d["beyond"] = extract_beyond(tree)
     d["apparentlyUsesParent"] = extract_apparently(tree)
+    d["beyondInherits"] = extract_beyond_inherits(tree)
     d["corners"], d["sides"] = extract_object_tables()
     return d
 
@@ -301,6 +330,9 @@ def to_lean(d):
     out.append("")
     out.append("/-- whether `ApparentlyFacing.helper` computes the line of sight in the parent frame -/")
     out.append(f"def apparentlyFacingUsesParent : Bool := {str(d['apparentlyUsesParent']).lower()}")
+    out.append("/-- whether `Beyond` tests `isA(fromPt, OrientedPoint)` before coercing `fromPt` to a vector")
+    out.append("    (only then can the orientation of an oriented `from` argument be inherited) -/")
+    out.append(f"def beyondInheritsFromOrientation : Bool := {str(d['beyondInherits']).lower()}")
     out.append("/-- `Object.corners`: signs of `(hw, hl, hh)`, in source order -/")
     out.append("def cornerTable : List (Int × Int × Int) := [" +
                ", ".join(f"({_int(a)}, {_int(b)}, {_int(c)})" for a, b, c in d["corners"]) + "]")
